@@ -4,6 +4,7 @@ import FractopoModel.Model.SnapLoop
 import FractopoModel.Generated.SnapInsert
 import FractopoModel.Generated.SnapDriver
 import FractopoModel.Generated.InsertPoint
+import FractopoModel.Lemmas.SnapStage
 /-!
 # Runs the REGENERATED second snapping stage and the regenerated repeat-until-stable driver (translator validation, stream
 S06-generated).  Distances are compared squared; the vertex insertion is the exact model `Snap.insertGeo`.
@@ -45,6 +46,20 @@ def ginsert (a : Args) : Option String := do
   let out := Gen.insert_point_to_linestring (fun c q => Pt.dist2 q c) (fun a b => a == b) (fun _ _ _ => 0) (fun a b q => ptSegDist2 q a b) l p (t * t)
   some s!"line={showLine out}"
 
+/-- `gsnappass t= areas= traces=`: the REGENERATED `snap_traces` (with the regenerated `simple_snap`, `snap_trace_simple`,
+`snap_others_to_trace`, `resolve_trace_candidates`, boundary filter, `snap_trace_to_another` inside), exact parameters, ascending
+candidate order; same output format as the model driver's `snappass` -/
+def gsnappass (a : Args) : Option String := do
+  let t ← (a.get? "t") >>= parseRat?
+  let areas ← (a.get? "areas") >>= parseArea?
+  let traces ← (a.get? "traces") >>= parseLines?
+  let polys : List Polygon := areas.flatMap id
+  let r := Gen.snap_traces SnapStageL.boundsE (SnapStageL.indexE .asc) SnapStageL.simpleSnapG SnapL.ends (SnapStageL.bdistC t) (SnapStageL.distC t)
+    (fun ep l => SnapL.onLine ep l) (fun l ep thr => Snap.insertGeo l ep thr) traces t (some polys)
+  some (match r with
+    | .error e => s!"err={e}"
+    | .ok (tr, ch) => s!"traces={showLines tr} changed={showBool ch}")
+
 def dispatch (line : String) : String :=
   let toks := (line.trimAscii.toString.splitOn " ").filter (· ≠ "")
   match toks with
@@ -57,6 +72,7 @@ def dispatch (line : String) : String :=
       | "closeb" => closeb a
       | "driver" => driverCmd a
       | "ginsert" => ginsert a
+      | "gsnappass" => gsnappass a
       | _ => some s!"error=unknown-command:{cmd}"
     r.getD "error=bad-arguments"
 
